@@ -148,11 +148,16 @@ fn main() {
         let mut last_read: Option<String> = None;
         let mut prev_was_compact = false;
         let mut rounds = 0u64;
+        // key -> (context, type) of every stored event, for the scoped read shapes
+        let mut placed: std::collections::BTreeMap<u64, (u64, u64)> = Default::default();
+        let mut shape_rng = Rng::for_case(a.seed, "compact-shapes", i);
+        let mut shape_fail: Option<String> = None;
         // C11 monitor: fingerprint of every listed segment directory at first sight
         let mut born: BTreeMap<String, BTreeMap<String, (u64, u64)>> = BTreeMap::new();
         for (n, op) in ops.iter().enumerate() {
-            if let Op::S { .. } = op {
+            if let Op::S { k, ctx, ty } = op {
                 applied += 1;
+                placed.insert(*k, (*ctx, *ty));
             }
             if *op == Op::C { rounds += 1; }
             let out = ex.exec(op);
@@ -206,6 +211,30 @@ fn main() {
                             }
                         }
                     }
+                    // Scoped reads must agree with the full selection of the same instant (oracle
+                    // only): a point lookup and a context-scoped selection over whatever mix of
+                    // memtable, level-0 and compacted segments holds the events now. A compaction
+                    // output carries its own zone index and filters.
+                    if !immut && shape_fail.is_none() && rounds > 0 {
+                        let full: Vec<u64> = real.split(' ').next().unwrap().trim_start_matches("keys=").split(',').filter_map(|x| x.parse().ok()).collect();
+                        if !full.is_empty() {
+                            let pk = full[shape_rng.below(full.len() as u64) as usize];
+                            let (pctx, pty) = placed[&pk];
+                            let mut want_ctx: Vec<u64> = full.iter().copied().filter(|k| placed[k] == (pctx, pty)).collect();
+                            want_ctx.sort();
+                            for (q, want) in [(format!("QUERY ev{pty} WHERE k = {pk}"), vec![pk]), (format!("QUERY ev{pty} FOR c{pctx} RETURN [k]"), want_ctx)] {
+                                let r = ex.s.cmd(&q).expect("child died in a scoped read");
+                                let mut got: Vec<u64> = r.col("k").iter().filter_map(|x| x.as_u64()).collect();
+                                got.sort();
+                                if !r.ok() || got != want {
+                                    let class = if ex.tainted { "stale-cache-on-segment-id-reuse" } else { "-" };
+                                    shape_fail = Some(format!("{class}\top#{n}: `{q}` returned {got:?} while the full selection of the same instant holds {want:?}; in {}", history_line(&cfg, ntypes, &ops)));
+                                    break;
+                                }
+                            }
+                            st.tally_n("scoped_reads", 2);
+                        }
+                    }
                     last_read = if ex.last_read_racy { None } else { Some(real) };
                 }
                 obs.push(line);
@@ -222,7 +251,13 @@ fn main() {
         st.tally_n("stores", applied as u64);
         st.tally_n("rounds", rounds);
         st.case(&history_line(&cfg, ntypes, &ops), &obs.join(" ; "), rounds > 0 && applied >= cfg.capacity());
-        match fail {
+        // an unknown-class failure of the scoped reads is reported before a known-class one
+        let chosen = match (&shape_fail, &fail) {
+            (Some(sf), _) if sf.starts_with("-\t") => shape_fail.clone(),
+            (_, Some(_)) => fail.clone(),
+            _ => shape_fail.clone(),
+        };
+        match chosen {
             None => st.oracle_ok(),
             Some(f) => {
                 let (class, detail) = f.split_once('\t').unwrap();
